@@ -7,9 +7,14 @@
 // the implementation must return exactly the triangle set of the rational Coq model, and the
 // result must not depend on shift/off (checked here as a metamorphic oracle).
 //
-// Every observation is written as a Coq term `CTri use_model pts tris pos` for Check/C20.v:
-// corr_ok compares with the model (small cases), prop_ok runs the certified checker delaunayb
-// plus the completeness oracle on what the implementation returned.
+// Every observation is written as a Coq term
+// `CTri use_model need_spec need_cover pts tris pos` for
+// Check/C20.v: corr_ok compares with the model (and checks that the model run meets the hypotheses
+// of bw_delaunay_partial), prop_ok runs — when need_spec — the certified checker delaunayb and
+// vertex identity and — when need_cover — the coverage oracles (every point used, 2n-2-h triangles,
+// areas add up to the hull area) on what the implementation returned.  A case whose only shortfall
+// is the known finding (hull triangles dropped by the finite super triangle) is written twice:
+// need_spec only (everything else must hold), then need_cover only under the FailKey.
 package main
 
 import (
@@ -196,8 +201,9 @@ type sampler func(r *hx.Rng) P
 
 // fill draws points from s, rejecting duplicates / collinear triples, then repairs concyclic
 // quadruples by replacing offenders; gives up (returns what it has, >= 3 points) after a budget.
-func fill(r *hx.Rng, n int, s sampler) []P {
-	var ps []P
+func fill(r *hx.Rng, n int, s sampler, init []P) []P {
+	ps := append([]P(nil), init...)
+	nInit := len(init)
 	add := func(target int) {
 		tries := 0
 		for len(ps) < target && tries < 60*target+200 {
@@ -216,7 +222,7 @@ func fill(r *hx.Rng, n int, s sampler) []P {
 		}
 		var keep []P
 		for i, p := range ps {
-			if !off[i] {
+			if !off[i] || i < nInit { // anchors stay: their partners in a concyclic quadruple go
 				keep = append(keep, p)
 			}
 		}
@@ -243,6 +249,16 @@ func clampI(v, lo, hi int64) int64 {
 
 func genGrid(r *hx.Rng, n int, big bool) (string, []P) {
 	G := int64(127)
+	var init []P
+	if big {
+		// 254 wide with anchors on both vertical sides: min.X+max.X is even, which is what exactOK
+		// needs for extents up to 255; only the generators with many free positions
+		G = 254
+		init = []P{{0, int64(r.Intn(255))}, {254, int64(r.Intn(255))}}
+		for init[0].y == init[1].y {
+			init[1].y = int64(r.Intn(255))
+		}
+	}
 	if n <= 8 && r.Chance(1, 3) {
 		G = int64(r.Range(3, 12)) // tiny grids: many near-degenerate configurations
 	} else if !big && r.Chance(1, 3) {
@@ -250,6 +266,9 @@ func genGrid(r *hx.Rng, n int, big bool) (string, []P) {
 	}
 	rnd := func(r *hx.Rng, m int64) int64 { return int64(r.Intn(int(m + 1))) }
 	kind := r.Intn(7)
+	if big {
+		kind = []int{0, 0, 2, 3, 6}[r.Intn(5)]
+	}
 	var name string
 	var s sampler
 	switch kind {
@@ -264,6 +283,9 @@ func genGrid(r *hx.Rng, n int, big bool) (string, []P) {
 			cs[i] = P{rnd(r, G), rnd(r, G)}
 		}
 		rad := int64(r.Range(2, 12))
+		if big {
+			rad = int64(r.Range(12, 40))
+		}
 		s = func(r *hx.Rng) P {
 			if r.Chance(1, 8) {
 				return P{rnd(r, G), rnd(r, G)} // outlier
@@ -322,7 +344,7 @@ func genGrid(r *hx.Rng, n int, big bool) (string, []P) {
 			return P{clampI(int64(math.Round(rad+rr*math.Cos(a))), 0, G), clampI(int64(math.Round(rad+rr*math.Sin(a))), 0, G)}
 		}
 	}
-	return name, fill(r, n, s)
+	return name, fill(r, n, s, init)
 }
 
 func genDesc(r *hx.Rng, n int, model bool) desc {
@@ -422,12 +444,14 @@ func vset(t [3]int) [3]int { // unordered vertex set
 }
 
 // ---------------------------------------------------------------- known-finding criterion
-// Implementation independent (no super-triangle coordinates here).  key is set iff
-//   the output is duplicate free, consistently wound, a subset of the true Delaunay triangulation
-//   (exact brute force: triples whose circumcircle contains no other input point), at least one
-//   true triangle is missing, and EVERY missing triangle's circumcircle leaves the bounding box
-//   enlarged by K*max(w,h) on each side (K = 5).
-const reachK = 5
+// key is set iff the output is duplicate free, consistently wound, a subset of the true Delaunay
+// triangulation (exact brute force: triples whose circumcircle contains no other input point), at
+// least one true triangle is missing, and EVERY missing triangle has a vertex of the super triangle
+// inside or on its circumcircle (the super triangle is the documented construction of /repo HEAD:
+// bounding box, S = max(w,h), base at min.Y-S, half width and height 20*S; exact integers in
+// doubled coordinates).  Any other triangle of the true triangulation has a strictly empty
+// circumdisk with respect to input and super vertices and therefore belongs to every Delaunay
+// triangulation of the extended point set: an exact Bowyer-Watson run cannot lose it.
 const failKeyDrop = "triangulation:finite-super-triangle-drops-hull-triangles"
 
 func trueDelaunay(ps []P) map[[3]int]bool {
@@ -459,23 +483,41 @@ func trueDelaunay(ps []P) map[[3]int]bool {
 	return dt
 }
 
-// reaches: the circumcircle of (a,b,c) is not contained in [x0-m,x1+m]x[y0-m,y1+m]
-func reaches(a, b, c P, x0, y0, x1, y1, m int64) bool {
-	o := orient(a, b, c)
-	A, B, C := a.x*a.x+a.y*a.y, b.x*b.x+b.y*b.y, c.x*c.x+c.y*c.y
-	ux := big.NewRat(A*(b.y-c.y)+B*(c.y-a.y)+C*(a.y-b.y), 2*o)
-	uy := big.NewRat(A*(c.x-b.x)+B*(a.x-c.x)+C*(b.x-a.x), 2*o)
-	dx := new(big.Rat).Sub(big.NewRat(a.x, 1), ux)
-	dy := new(big.Rat).Sub(big.NewRat(a.y, 1), uy)
-	r2 := new(big.Rat).Add(new(big.Rat).Mul(dx, dx), new(big.Rat).Mul(dy, dy))
-	beyond := func(gap *big.Rat) bool { // radius > gap ?
-		if gap.Sign() < 0 {
-			return true
-		}
-		return r2.Cmp(new(big.Rat).Mul(gap, gap)) > 0
+// superVerts2: the three super-triangle vertices in doubled grid coordinates
+func superVerts2(ps []P) [3]P {
+	x0, y0, x1, y1 := bbox(ps)
+	S := x1 - x0
+	if y1-y0 > S {
+		S = y1 - y0
 	}
-	return beyond(new(big.Rat).Sub(big.NewRat(x1+m, 1), ux)) || beyond(new(big.Rat).Sub(ux, big.NewRat(x0-m, 1))) ||
-		beyond(new(big.Rat).Sub(big.NewRat(y1+m, 1), uy)) || beyond(new(big.Rat).Sub(uy, big.NewRat(y0-m, 1)))
+	xm2, yb2 := x0+x1, 2*(y0-S)
+	return [3]P{{xm2 - 40*S, yb2}, {xm2, yb2 + 40*S}, {xm2 + 40*S, yb2}}
+}
+
+// insideOrOn: q (doubled coordinates) lies inside or on the circumcircle of the grid triangle a,b,c
+func insideOrOn(a, b, c, q P) bool {
+	bi := func(v int64) *big.Int { return big.NewInt(v) }
+	mul := func(x, y *big.Int) *big.Int { return new(big.Int).Mul(x, y) }
+	sub := func(x, y *big.Int) *big.Int { return new(big.Int).Sub(x, y) }
+	add := func(x, y *big.Int) *big.Int { return new(big.Int).Add(x, y) }
+	ax, ay := bi(2*a.x-q.x), bi(2*a.y-q.y)
+	bx, by := bi(2*b.x-q.x), bi(2*b.y-q.y)
+	cx, cy := bi(2*c.x-q.x), bi(2*c.y-q.y)
+	det := add(sub(mul(add(mul(ax, ax), mul(ay, ay)), sub(mul(bx, cy), mul(cx, by))),
+		mul(add(mul(bx, bx), mul(by, by)), sub(mul(ax, cy), mul(cx, ay)))),
+		mul(add(mul(cx, cx), mul(cy, cy)), sub(mul(ax, by), mul(bx, ay))))
+	o := orient(a, b, c)
+	return det.Sign()*sign64(o) >= 0
+}
+
+func sign64(v int64) int {
+	switch {
+	case v > 0:
+		return 1
+	case v < 0:
+		return -1
+	}
+	return 0
 }
 
 // classify returns (complete, failKey, number of missing triangles)
@@ -504,15 +546,12 @@ func classify(ps []P, tris [][3]int) (bool, string, int) {
 	}
 	missing := 0
 	allReach := true
-	x0, y0, x1, y1 := bbox(ps)
-	S := x1 - x0
-	if y1-y0 > S {
-		S = y1 - y0
-	}
+	sv := superVerts2(ps)
 	for t := range dt {
 		if !seen[t] {
 			missing++
-			if !reaches(ps[t[0]], ps[t[1]], ps[t[2]], x0, y0, x1, y1, reachK*S) {
+			a, b, c := ps[t[0]], ps[t[1]], ps[t[2]]
+			if !insideOrOn(a, b, c, sv[0]) && !insideOrOn(a, b, c, sv[1]) && !insideOrOn(a, b, c, sv[2]) {
 				allReach = false
 			}
 		}
@@ -527,9 +566,9 @@ func classify(ps []P, tris [][3]int) (bool, string, int) {
 }
 
 // ---------------------------------------------------------------- one case
-func coqCase(d desc, o outcome, posInt [][3]int64) string {
+func coqCase(d desc, o outcome, posInt [][3]int64, needSpec, needCover bool) string {
 	var b strings.Builder
-	fmt.Fprintf(&b, "CTri %s [", hx.CoqBool(d.Model))
+	fmt.Fprintf(&b, "CTri %s %s %s [", hx.CoqBool(d.Model), hx.CoqBool(needSpec), hx.CoqBool(needCover))
 	for i, p := range d.Pts {
 		if i > 0 {
 			b.WriteByte(';')
@@ -579,7 +618,7 @@ func runCase(run *hx.Run, d desc, kind string) {
 	c.Key = string(kb)
 	if o.crash != "" {
 		c.GoFail = "Crash: " + o.crash
-		c.Coq = coqCase(desc{Pts: d.Pts}, outcome{}, nil)
+		c.Coq = coqCase(desc{Pts: d.Pts}, outcome{}, nil, true, true)
 		run.Add(c)
 		return
 	}
@@ -623,10 +662,11 @@ func runCase(run *hx.Run, d desc, kind string) {
 			run.Count(fmt.Sprintf("incomplete-or-unsound(missing=%d)", missing))
 		}
 	}
+	known := c.FailKey != ""
 	if c.GoFail != "" {
-		c.Coq = coqCase(desc{Pts: d.Pts}, outcome{}, nil)
+		c.Coq = coqCase(desc{Pts: d.Pts}, outcome{}, nil, true, true)
 	} else {
-		c.Coq = coqCase(d, o, posInt)
+		c.Coq = coqCase(d, o, posInt, true, !known)
 	}
 	run.Count("gen:" + d.Gen)
 	switch n := len(ps); {
@@ -644,7 +684,19 @@ func runCase(run *hx.Run, d desc, kind string) {
 	if d.Model {
 		run.Count("model-compared")
 	}
+	if !known {
+		run.Add(c)
+		return
+	}
+	// known finding: first everything but coverage (must hold, no FailKey) ...
+	c.FailKey = ""
 	run.Add(c)
+	// ... then coverage on its own under the finding's key (the model is not run again)
+	d2 := d
+	d2.Model = false
+	c2 := hx.Case{Kind: kind + "-cover", Desc: d, Nontriv: false, Key: c.Key, FailKey: failKeyDrop}
+	c2.Coq = coqCase(d2, o, posInt, false, true)
+	run.Add(c2)
 }
 
 func main() {
